@@ -2,6 +2,7 @@ import BlobfinderModel.Model.Proto
 import BlobfinderModel.Model.Crop
 import BlobfinderModel.Model.Blocks
 import BlobfinderModel.Model.Eval
+import BlobfinderModel.Model.DType
 /-
 Model driver for the correlation pipeline (crop, blocks, evaluation ...).
 One operation per input line, one result line per operation.
@@ -113,6 +114,18 @@ def opShift (ws : List String) : String :=
   | some [v, anchor, c] => s!"{Gen.shift v anchor c} {Gen.unshift v anchor c}"
   | _ => "bad-op"
 
+/-- `dtype name v m` -> promoted dtype, lo, hi, wrapped v - m + 1 in the input dtype, exact value -/
+def opDType (ws : List String) : String :=
+  match ws with
+  | [name, v, m] =>
+    match DType.ofString? name, v.toInt?, m.toInt? with
+    | some d, some v, some m =>
+      let arg := v - m + 1
+      if d.isInt then s!"{(promote d).name} {d.lo} {d.hi} {wrap d arg} {arg}"
+      else s!"{(promote d).name} - - {arg} {arg}"
+    | _, _, _ => "bad-op"
+  | _ => "bad-op"
+
 def opUsGeom (ws : List String) : String :=
   match ints? ws with
   | some [us] => s!"{Gen.us_region us} {Gen.us_dftshift (Gen.us_region us)}"
@@ -130,6 +143,7 @@ def step (line : String) : String :=
   | "logarg" :: ws => opLogArg ws
   | "shift" :: ws => opShift ws
   | "usgeom" :: ws => opUsGeom ws
+  | "dtype" :: ws => opDType ws
   | _ => "bad-op"
 
 def main : IO Unit := run step
